@@ -51,6 +51,12 @@ pooled wrapper objects of `kfMath` amount to is `kfmath_history_independent` /
 `kfmath_concurrent_independent` – so every value is computed from its context alone:
 `ok errs=… vals=v1,v2,…`.
 
+  docop <b|u> <operator hex>
+
+an operator listed in docs/usage/math.md; the SPECIFICATION's answer is the constant `ok accept` (a
+documented operator is an operator; `docs_operators_are_the_tables`), the harness answers from
+`stdmath.Compile` of `2 <op> 3` / `<op>2` / `<op>(2)`.
+
   docex <formula hex> <expected hex> <keys>
 
 an example of docs/usage/math.md: `ok <expected hex>` if the model's `{! formula}` under the documented
@@ -240,6 +246,7 @@ def handle (args : List String) : String :=
       | some tc => xcheck (histAns registry (o == "1") tc ctxs) (histAns Rare.Drv.Expr.registry (o == "1") tc ctxs)
       | none => "bad-args"
     | _, _ => "bad-args"
+  | ["docop", _, _] => "ok accept"
   | ["docex", f, want, ks] =>
     match Hex.dec f, Hex.dec want, decHexList ks with
     | some fb, some wb, some keys =>
